@@ -3,7 +3,7 @@ import os
 from pyvc.verifier import REG as R
 
 SD = "clematis/engine/util/snapshot_delta.py:"
-DRV = os.path.join(os.path.dirname(os.path.abspath(__file__)), "drivers.py") + ":"
+DRV = os.path.join(os.path.dirname(os.path.abspath(__file__)), "_drivers.py") + ":"
 
 # local variable types of the codec functions (interpreted inline from the round-trip harness)
 R.loops(SD + "_walk_diff", {}, locals={"b": "JObj", "c": "JObj", "adds": "JObj", "mods": "JObj", "dels": "JList"})
